@@ -726,6 +726,7 @@ func init() {
 			sort.Strings(entNames)
 			c.Explore("all-entities", fmt.Sprintf("each of the %d HTML5 named character references, and each name with one more letter appended, in running text, in a link title, in a heading and (values without white space) in an info string", len(entNames)), -1, 0, func(x *X) { c06AllEntities(x, entNames) })
 			c.Explore("sibling-leaves", "every pair of one-line paragraphs (X of <=2, Y of <=3 tokens over the X-leaf alphabet) as two items of a tight list, two paragraphs of a block quote and two paragraphs of a loose list item, each compared with the paragraph rendered as a document of its own", -1, 5, c06SiblingLeaves)
+			c.Inputs(spBreaks, c.Pick(7, 8), c06BreaksDriver)
 			c.Inputs(spCodeSpan, c.Pick(8, 9), c06CodeSpanDriver)
 			c.Inputs(spLinkTail, c.Pick(6, 7), c06LinkTailDriver)
 			c.Inputs(spRawTag, c.Pick(5, 7), c06RawDriver)
